@@ -195,7 +195,9 @@ LtV(a, b) ==
              ELSE \* at least one small rational: the integer operand is compared through its integer part
                   LET ip(v) == IF v.k = "int" THEN MagB(v.b) ELSE FromInt(RAbs(v.n) \div v.d)
                       fr(v) == IF v.k = "int" THEN RZero ELSE Rat(RAbs(v.n) % v.d, v.d)
-                  IN IF ip(x) # ip(y) THEN ULt(ip(x), ip(y)) ELSE RLt(fr(x), fr(y))
+                      \* a.n/a.d < b.n/b.d without 32-bit overflow (denominators up to 2^25)
+                      FracLt(p, q) == ULt(BMul(FromInt(p.n), FromInt(q.d)), BMul(FromInt(q.n), FromInt(p.d)))
+                  IN IF ip(x) # ip(y) THEN ULt(ip(x), ip(y)) ELSE FracLt(fr(x), fr(y))
        IN IF sa > 0 THEN MagLt(a, b) ELSE MagLt(b, a)
 
 (* ------------------------------------------------ rounding to p bits (IEEE) *)
